@@ -175,6 +175,13 @@ impl Record {
         let start =
             u64::try_from(start).map_err(|e| io::Error::new(io::ErrorKind::InvalidInput, e))?;
 
+        // A start beyond the last base is clipped to the position following the last base.
+        // Otherwise, the offset resolves to a position in a following record.
+        let (start, past_last_base) = match self.length().checked_sub(1) {
+            Some(last) if start > last => (last, 1),
+            _ => (start, 0),
+        };
+
         let line_base_count = self.line_base_count.get();
         let line_width = self.line_width.get();
 
@@ -184,6 +191,7 @@ impl Record {
             .checked_mul(line_width)
             .and_then(|n| n.checked_add(start % line_base_count))
             .and_then(|n| n.checked_add(self.position()))
+            .and_then(|n| n.checked_add(past_last_base))
             .ok_or_else(|| {
                 io::Error::new(
                     io::ErrorKind::InvalidData,
